@@ -5,6 +5,7 @@ import Driver.Cond
 import Driver.Sym
 import Driver.TwoPass
 import Driver.Sim
+import Driver.SimX
 import Driver.Mem
 import Driver.FileIO
 import Driver.Det
@@ -32,6 +33,7 @@ def dispatch (line : String) : String :=
   | "twopass" :: args => Driver.TwoPass.handle args
   | "twopass430" :: args => Driver.TwoPass.handle430 args
   | "sim" :: args => Driver.Sim.handle args
+  | "simx" :: args => Driver.SimX.handle args
   | "simrun" :: args => Driver.Sim.handleRun args
   | "arch" :: args => Driver.Sim.handleArch args
   | "dislen" :: args => Driver.Sim.handleDisLen args
